@@ -2,7 +2,6 @@ package introspection
 
 import (
 	"sort"
-	"strings"
 
 	"github.com/buildbuildio/pebbles/common"
 
@@ -41,11 +40,17 @@ func (ir *IntrospectionResolver) resolveSchema(schema *ast.Schema, selectionSet 
 	for _, f := range common.SelectionSetToFields(selectionSet, nil) {
 		switch f.Name {
 		case "types":
-			types := []map[string]interface{}{}
-			for _, t := range schema.Types {
-				types = append(types, ir.resolveType(schema, &ast.Type{NamedType: t.Name}, f.SelectionSet))
+			// resolve in name order, whatever the client selected
+			names := make([]string, 0, len(schema.Types))
+			for name := range schema.Types {
+				names = append(names, name)
 			}
-			sortPayload(types)
+			sort.Strings(names)
+
+			types := []map[string]interface{}{}
+			for _, name := range names {
+				types = append(types, ir.resolveType(schema, &ast.Type{NamedType: name}, f.SelectionSet))
+			}
 			result[f.Alias] = types
 		case "queryType":
 			result[f.Alias] = ir.resolveType(schema, &ast.Type{NamedType: "Query"}, f.SelectionSet)
@@ -54,11 +59,17 @@ func (ir *IntrospectionResolver) resolveSchema(schema *ast.Schema, selectionSet 
 		case "subscriptionType":
 			result[f.Alias] = ir.resolveType(schema, &ast.Type{NamedType: "Subscription"}, f.SelectionSet)
 		case "directives":
-			directives := []map[string]interface{}{}
-			for _, d := range schema.Directives {
-				directives = append(directives, ir.resolveDirective(schema, d, f.SelectionSet))
+			// resolve in name order, whatever the client selected
+			names := make([]string, 0, len(schema.Directives))
+			for name := range schema.Directives {
+				names = append(names, name)
 			}
-			sortPayload(directives)
+			sort.Strings(names)
+
+			directives := []map[string]interface{}{}
+			for _, name := range names {
+				directives = append(directives, ir.resolveDirective(schema, schema.Directives[name], f.SelectionSet))
+			}
 			result[f.Alias] = directives
 		}
 	}
@@ -303,16 +314,4 @@ func resolveEnumValue(enum *ast.EnumValueDefinition, selectionSet ast.SelectionS
 	}
 
 	return result
-}
-
-func sortPayload(payload []map[string]interface{}) {
-	sort.SliceStable(payload, func(i, j int) bool {
-		left, lok := payload[i]["name"].(string)
-		right, rok := payload[j]["name"].(string)
-		if !lok || !rok {
-			return false
-		}
-		return strings.Compare(left, right) < 0
-	})
-
 }
